@@ -5,6 +5,7 @@ from wsx.core import E
 PROPERTY = "C11"
 BUDGET = {"quick": 900, "thorough": 3000}
 namespaces = hsys.namespaces
+HEAVY_FIRST = (":P2",)
 real_namespace = common.real_namespace
 GOALS = ["closing message executed, follower not", "error response closes", "follower arrived in a later read", "follower arrived in the same read",
          "pre-empted schedule explored", "connection closed"]
@@ -29,9 +30,10 @@ FOLLOW = {
 def BOUNDS(tier):
     return ("closing message in %r (Connection: close, HTTP/1.0, refused framing, fewer bytes than the declared Content-Length, CL+TE) preceded by "
             "0..1 ordinary requests and followed by %r, in the same read or a later one; channel_request_lookahead in {0,1}%s; every interleaving "
-            "of the I/O thread and %s with at most 1 pre-emption at source-line granularity of channel.py." % (
+            "of the I/O thread and %s with at most 1 pre-emption at source-line granularity of channel.py (2 pre-emptions for the follower split "
+            "across two reads after %s)." % (
                 sorted(CLOSERS), sorted(FOLLOW), " and {2,5} for the closers CC / E400 with the followers 'two' / 'split'" if tier == "quick" else " and {2,5}",
-                "one worker" if tier == "quick" else "one or two workers"))
+                "one worker" if tier == "quick" else "one or two workers", "Connection: close, lookahead 1" if tier == "quick" else "CC / H10 / E400, lookahead 1 and 2"))
 
 
 def jobs(tier):
@@ -42,6 +44,13 @@ def jobs(tier):
                 if tier == "quick" and la in (2, 5) and (f not in ("two", "split") or c not in ("CC", "E400")):
                     continue
                 js.append(dict(name="%s:%s:la%d" % (c, f, la), closer=c, follow=f, lookahead=la, workers=1, P=1))
+    # two pre-emptions for the follower that is split across two reads (the I/O thread is pre-empted between recv() and received(), and again
+    # before it tears the connection down): the later read, no leading request
+    for c in (("CC",) if tier == "quick" else ("CC", "H10", "E400")):
+        for la in ((1,) if tier == "quick" else (1, 2)):
+            for acc in range(3):
+                js.append(dict(name="%s:split:la%d:P2:acc0=%d" % (c, la, acc), closer=c, follow="split", lookahead=la, workers=1, P=2,
+                               force={"lead": 0, "later": 1, "acc0": acc}))
     if tier == "thorough":
         for c in ("CC", "SHORT", "E400"):
             for la in (1, 2):
